@@ -51,6 +51,8 @@ def run_world(world, idx=0, timeout=180, hashseed='0', extra_env=None, keep=Fals
             target = os.path.join(d, mod + '_pk', mod + '_dd.py')
         with open(target, 'w') as f:
             f.write(body)
+    for sub in world.get('mkdirs', []):
+        os.makedirs(os.path.join(d, sub), exist_ok=True)
     wpath = os.path.join(d, 'world.json')
     json.dump(world, open(wpath, 'w'))
     trace = os.path.join(d, 'trace.jsonl')
